@@ -26,7 +26,8 @@ func init() {
 		DesignRef: "DESIGN.md §3 C35",
 		Explanation: "Structural clauses only (the mask arithmetic itself is not decided): (advance) NextSingleBitMark takes the manager's mutex before it reads the allocation counter and releases it by defer; the mark it returns is nthMark(counter); every return of a mark is preceded by counter+1, and a failed allocation returns mark 0. " +
 			"(inmask) every non-zero value nthMark returns is `1<<shift` and is only returned under `mask & value > 0`; every bit MapNumberToMark ORs into its result is `1<<shift` under the same mask test; MapMarkToNumber only succeeds under `mark & mask == mark`. " +
-			"(sites) in StartDataplaneDriver every single-bit mark stored into rules.Config (accept, pass, drop, scratch0, scratch1, wireguard) is the result of its own NextSingleBitMark call on one manager (or the zero default for the optional wireguard mark), MarkEndpoint comes from NextBlockBitsMark on the same manager, and the Config literal is only reached when a mark allocated at or after each required mark has been tested non-zero (allocation fails monotonically, so a later success implies the earlier ones).",
+			"(sites) in StartDataplaneDriver every single-bit mark stored into rules.Config (accept, pass, drop, scratch0, scratch1, wireguard) is the result of its own NextSingleBitMark call on one manager (or the zero default for the optional wireguard mark), MarkEndpoint comes from NextBlockBitsMark on the same manager, and the Config literal is only reached when a mark allocated at or after each required mark has been tested non-zero (allocation fails monotonically, so a later success implies the earlier ones). " +
+			"(maskonly) MapNumberToMark, MapMarkToNumber and nthMark, and everything they call in the package, load no field of the manager that is mutated outside the constructor literal (the allocation counters): the mapping is a function of the mask alone, hence the same after any allocation sequence.",
 		NotDecided: "That the n-th set bit is computed correctly, that numbers round-trip through MapNumberToMark/MapMarkToNumber (arithmetic over run-time values); exhaustion behaviour of NextBlockBitsMark beyond what NextSingleBitMark gives it; marks used by the BPF dataplane.",
 		Assumptions: []string{
 			"go/types + go/ssa (x/tools v0.50.0) model of the current source, CGO_ENABLED=0 build",
@@ -49,6 +50,10 @@ func init() {
 				Old: "\tif mark&mc.mask != mark {\n", New: "\tif mark == 0 {\n", Expect: "C35.inmask/MarkBitsManager.MapMarkToNumber"},
 			{Name: "MapNumberToMark sets bits outside the mask", File: c35File,
 				Old: "\t\tcandidate := uint32(1) << shift\n\t\tif mc.mask&candidate > 0 {\n\t\t\tvalue := number", New: "\t\tcandidate := uint32(1) << shift\n\t\tif candidate > 0 {\n\t\t\tvalue := number", Expect: "C35.inmask/MarkBitsManager.MapNumberToMark"},
+			{Name: "MapNumberToMark tests the number against the free-position count instead of the mask", File: c35File,
+				Old: "\tnumber := uint32(n)\n\tmark := uint32(0)\n", New: "\tif n > 0 && n >= mc.CurrentFreeNumberOfMark() {\n\t\treturn 0, errors.New(\"not enough mark bits available\")\n\t}\n\tnumber := uint32(n)\n\tmark := uint32(0)\n", Expect: "C35.maskonly/MarkBitsManager.MapNumberToMark"},
+			{Name: "MapMarkToNumber refuses every mark once the mask is exhausted", File: c35File,
+				Old: "\tif mark&mc.mask != mark {\n", New: "\tif mark&mc.mask != mark || mc.numFreeBits == 0 {\n", Expect: "C35.maskonly/MarkBitsManager.MapMarkToNumber"},
 			{Name: "drop mark reuses the pass mark's allocation", File: c35DpFile,
 				Old: "\t\tmarkDrop, _ := markBitsManager.NextSingleBitMark()\n", New: "\t\tmarkDrop := markPass\n", Expect: "C35.sites/MarkDrop"},
 			{Name: "exhaustion check no longer covers the last scratch bit", File: c35DpFile,
@@ -63,9 +68,102 @@ func runC35(c *Ctx) {
 	c.Rule("C35.inmask", "E-GUARD", "bits produced by nthMark/MapNumberToMark are 1<<shift under `mask & bit > 0`; MapMarkToNumber succeeds only under mark&mask==mark", 3)
 	c.Rule("C35.sites", "E-FLOW/E-GUARD", "each mark in rules.Config comes from its own allocation call on one manager; the Config literal is reached only after a covering non-zero test", 7)
 
+	c.Rule("C35.maskonly", "E-EFFECT", "the number<->mark mapping functions (and nthMark) are functions of the mask alone: neither they nor anything they call reads a field of the manager that the allocator mutates", 3)
+
 	c35Advance(c, p)
 	c35InMask(c, p)
 	c35Sites(c, p)
+	c35MaskOnly(c, p)
+}
+
+// c35MaskOnly: "every number that fits the mask maps to a mark and back" is
+// quantified over all allocation sequences, so the mapping must not depend on how
+// many bits have been handed out.  Allocation state = the fields of
+// MarkBitsManager that are stored to anywhere outside a fresh composite literal
+// (today numBitsAllocated, numFreeBits).  MapNumberToMark, MapMarkToNumber and
+// nthMark (whose index comes in as a parameter) and everything they reach through
+// static calls in the package must not load such a field.
+func c35MaskOnly(c *Ctx, p *Prog) {
+	tn, _ := p.LookupObj(c35Pkg, "MarkBitsManager").(*types.TypeName)
+	if tn == nil {
+		c.Lost("type MarkBitsManager")
+	}
+	isMgr := func(t types.Type) bool { return types.Identical(derefType(t), tn.Type()) }
+	sp := p.SSAPkg(c35Pkg)
+	if sp == nil {
+		c.Lost("ssa package %s", c35Pkg)
+	}
+	// mutable fields: stored through anything but a local literal
+	mutable := map[*types.Var]string{}
+	for _, fn := range p.AllFuncs() {
+		if fn.Pkg != sp {
+			continue
+		}
+		allInstrs(fn, false, func(f *ssa.Function, in ssa.Instruction) {
+			st, ok := in.(*ssa.Store)
+			if !ok {
+				return
+			}
+			fa, ok := st.Addr.(*ssa.FieldAddr)
+			if !ok || !isMgr(fa.X.Type()) {
+				return
+			}
+			if _, lit := fa.X.(*ssa.Alloc); lit {
+				return
+			}
+			if fv := fieldVar(fa); fv != nil {
+				mutable[fv] = fnName(f)
+			}
+		})
+	}
+	if len(mutable) == 0 {
+		c.Lost("no field of MarkBitsManager is mutated by the allocator (allocation state not found)")
+	}
+	for _, name := range []string{"MarkBitsManager.MapNumberToMark", "MarkBitsManager.MapMarkToNumber", "MarkBitsManager.nthMark"} {
+		fn := p.Func(c35Pkg, name)
+		if fn == nil {
+			c.Lost("%s", name)
+		}
+		var bad []string
+		funcs := p.closure(fn)
+		var fl []*ssa.Function
+		for f := range funcs {
+			if f.Pkg == sp {
+				fl = append(fl, f)
+			}
+		}
+		sort.Slice(fl, func(i, j int) bool { return fnName(fl[i]) < fnName(fl[j]) })
+		for _, f := range fl {
+			allInstrs(f, true, func(g *ssa.Function, in ssa.Instruction) {
+				var fv *types.Var
+				switch x := in.(type) {
+				case *ssa.FieldAddr:
+					if isMgr(x.X.Type()) && addrIsRead(x) {
+						fv = fieldVar(x)
+					}
+				case *ssa.Field:
+					if isMgr(x.X.Type()) {
+						fv = structField(x.X.Type(), x.Field)
+					}
+				}
+				if fv == nil {
+					return
+				}
+				if by, ok := mutable[fv]; ok {
+					via := ""
+					if topFn(g) != fn {
+						via = " (via " + fnName(topFn(g)) + ")"
+					}
+					bad = append(bad, fmt.Sprintf("reads %s%s at %s, which %s changes with every allocation", fv.Name(), via, p.Pos(in.Pos()), by))
+				}
+			})
+		}
+		detail := ""
+		if len(bad) > 0 {
+			detail = fnName(fn) + " " + strings.Join(bad, "; ") + ": its result for a given mask depends on how many bits have been handed out"
+		}
+		c.Check(len(bad) == 0, "C35.maskonly/"+fnName(fn), p.Pos(fn.Pos()), fmt.Sprintf("reads no allocator-mutated field (%d function(s) inspected)", len(fl)), detail)
+	}
 }
 
 type c35M struct {
